@@ -317,3 +317,99 @@ Definition recode_c (cte : bytes) (encb : bytes -> bytes) (d : bytes) : bytes :=
       end
   | None => d
   end.
+
+(* ------------------------------------------------------------------ *)
+(* 6.  Envelope._msg_generator at header granularity                   *)
+(* ------------------------------------------------------------------ *)
+(*  outfp = BytesIO()
+    try:    BytesGenerator(outfp, policy=SMTP).flatten(msg, False)
+    except Exception:
+            outfp = BytesIO()                                   # a FRESH buffer
+            BytesGenerator(outfp, policy=_SMTP_NO_REFOLD).flatten(msg, False)
+    return outfp.getvalue()
+   BytesGenerator._write_headers writes policy.fold_binary(name, value) of one
+   stored header after the other straight into the output file, then the blank
+   line; when the fold of a header raises, the headers before it are already in
+   the buffer (Raised buf). *)
+Section Generator.
+  Variable src : Type.                                  (* a stored header: (name, source value) *)
+
+  Inductive wres := Done (buf : bytes) | Raised (buf : bytes).
+
+  (* fold h = None: policy.fold_binary raises for this header *)
+  Fixpoint write_headers (fold : src -> option bytes) (buf : bytes) (hs : list src) : wres :=
+    match hs with
+    | [] => Done (buf ++ CRLF)
+    | h :: hs' =>
+        match fold h with
+        | Some b => write_headers fold (buf ++ b) hs'
+        | None => Raised buf
+        end
+    end.
+
+  Inductive gres := GenOk (out : bytes) | GenRaises.
+
+  Definition msg_generator (fold1 fold2 : src -> option bytes) (hs : list src) : gres :=
+    match write_headers fold1 [] hs with
+    | Done b => GenOk b
+    | Raised _ =>
+        match write_headers fold2 [] hs with        (* fresh buffer *)
+        | Done b => GenOk b
+        | Raised _ => GenRaises
+        end
+    end.
+
+  (* NOT the code: the variant that keeps writing into the half-written buffer
+     (only used by an Example that shows what the theorem excludes) *)
+  Definition msg_generator_shared (fold1 fold2 : src -> option bytes) (hs : list src) : gres :=
+    match write_headers fold1 [] hs with
+    | Done b => GenOk b
+    | Raised buf =>
+        match write_headers fold2 buf hs with
+        | Done b => GenOk b
+        | Raised _ => GenRaises
+        end
+    end.
+
+  (* the tiny spec: every header exactly once, in order, all by the same policy *)
+  Fixpoint render_all (fold : src -> option bytes) (hs : list src) : option bytes :=
+    match hs with
+    | [] => Some []
+    | h :: hs' =>
+        match fold h with
+        | None => None
+        | Some b => match render_all fold hs' with Some r => Some (b ++ r) | None => None end
+        end
+    end.
+End Generator.
+
+
+(* the class without the 78-byte bound: header blocks that may contain over-long
+   lines (these are the ones email may fail to re-fold) *)
+Definition xwf_cont (l : hline) : bool :=
+  starts_blank (fst l) && forallb val_char (fst l) && existsb (fun b => negb (is_blank b)) (fst l).
+Definition xwf_field (f : field) : bool :=
+  negb (null (f_name f)) && forallb name_char (f_name f)
+  && forallb val_char (f_val f) && negb (starts_blank (f_val f))
+  && forallb xwf_cont (f_cont f).
+Definition xwf_block (fs : list field) : bool := negb (null fs) && forallb xwf_field fs.
+
+(* policy SMTP with refold_source='none': name + ': ' + CRLF.join(value.splitlines()) + CRLF *)
+Definition fold_raw (f : field) : bytes := render [crlf_field f].
+
+Definition parse_block_x (d : bytes) : option (list field) :=
+  match lines_of d with
+  | None => None
+  | Some ls =>
+      match group ls with
+      | Some ([], fs) => if xwf_block fs then Some fs else None
+      | _ => None
+      end
+  end.
+Definition hparse_x (d : bytes) : option (list field) * option bytes := (parse_block_x d, None).
+
+(* hypotheses about `email` on this class (statement vocabulary) *)
+Definition parser_ok_x (hparse : bytes -> list field * option bytes) : Prop :=
+  forall fs blank, xwf_block fs = true -> blank_ok blank -> hparse (render fs ++ blank) = (fs, None).
+Definition fold_short_ok (fold_smtp : field -> option bytes) : Prop :=
+  forall f, wf_field f = true -> fold_smtp f = Some (fold_raw f).
